@@ -1,9 +1,1008 @@
-//! stub — being built
+//! C20 — CowBytes and LongChain behave exactly like a plain byte sequence.
+//!
+//! Bounded-exhaustive enumeration of operation sequences on `LongChain`
+//! against a `Vec<u8>` model (every argument at, inside and one past every
+//! boundary), and of every `CowBytes` accessor / comparison / hash / mutator on
+//! all short byte strings in both variants.
+
 use crate::Args;
-use crate::report::Report;
+use crate::report::{Report, hex, unhex};
+use bytes::{Buf, Bytes};
+use cow_bytes::{CowBytes, LongChain};
+use serde_json::{Value, json};
+use std::borrow::Borrow;
+use std::cmp::Ordering;
+use std::collections::{BTreeMap, HashMap};
+use std::hash::{Hash, Hasher};
+use std::panic::{AssertUnwindSafe, catch_unwind};
+use std::sync::Mutex;
+use std::sync::atomic::{AtomicUsize, Ordering as AO};
+
+// ---------------------------------------------------------------- operations
+
+#[derive(Clone, Copy, Debug, PartialEq, Eq, Hash)]
+enum Op {
+    Push { size: u8, st: bool },
+    Insert { idx: u8, size: u8, st: bool },
+    Pop,
+    Remove(u8),
+    SplitTo(u8),
+    SplitOff(u8),
+    Truncate(u8),
+    Advance(u8),
+    Clear,
+}
+
+impl Op {
+    fn name(self) -> &'static str {
+        match self {
+            Op::Push { .. } => "push",
+            Op::Insert { .. } => "insert",
+            Op::Pop => "pop",
+            Op::Remove(_) => "remove",
+            Op::SplitTo(_) => "split_to",
+            Op::SplitOff(_) => "split_off",
+            Op::Truncate(_) => "truncate",
+            Op::Advance(_) => "advance",
+            Op::Clear => "clear",
+        }
+    }
+    fn to_json(self) -> Value {
+        match self {
+            Op::Push { size, st } => json!({"op": "push", "size": size, "static": st}),
+            Op::Insert { idx, size, st } => json!({"op": "insert", "index": idx, "size": size, "static": st}),
+            Op::Pop => json!({"op": "pop"}),
+            Op::Remove(i) => json!({"op": "remove", "index": i}),
+            Op::SplitTo(n) => json!({"op": "split_to", "n": n}),
+            Op::SplitOff(n) => json!({"op": "split_off", "n": n}),
+            Op::Truncate(n) => json!({"op": "truncate", "n": n}),
+            Op::Advance(n) => json!({"op": "advance", "n": n}),
+            Op::Clear => json!({"op": "clear"}),
+        }
+    }
+    fn from_json(v: &Value) -> Op {
+        let n = |k: &str| v[k].as_u64().unwrap_or_else(|| panic!("replay: op lacks {k}")) as u8;
+        let st = v["static"].as_bool().unwrap_or(false);
+        match v["op"].as_str().expect("replay: op") {
+            "push" => Op::Push { size: n("size"), st },
+            "insert" => Op::Insert { idx: n("index"), size: n("size"), st },
+            "pop" => Op::Pop,
+            "remove" => Op::Remove(n("index")),
+            "split_to" => Op::SplitTo(n("n")),
+            "split_off" => Op::SplitOff(n("n")),
+            "truncate" => Op::Truncate(n("n")),
+            "advance" => Op::Advance(n("n")),
+            "clear" => Op::Clear,
+            other => panic!("replay: unknown op {other}"),
+        }
+    }
+}
+
+/// Bytes of the segment pushed/inserted at step `step`: distinct per step so
+/// that any reordering or duplication shows in the contents.
+static POOL: [u8; 48] = {
+    let mut a = [0u8; 48];
+    let mut i = 0;
+    while i < 48 {
+        a[i] = 0x10 + i as u8;
+        i += 1;
+    }
+    a
+};
+const MAX_SEG: usize = 3;
+
+fn seg_bytes(step: usize, size: u8) -> &'static [u8] {
+    &POOL[step * MAX_SEG..step * MAX_SEG + usize::from(size)]
+}
+
+fn seg(step: usize, size: u8, st: bool) -> CowBytes<'static> {
+    let b = seg_bytes(step, size);
+    if st { CowBytes::Static(Bytes::copy_from_slice(b)) } else { CowBytes::Temporary(b) }
+}
+
+type Chain = LongChain<'static>;
+
+/// The start states: the empty chain and three pre-built ones.
+fn start_state(k: usize) -> (Chain, Vec<u8>) {
+    let mut c = LongChain::new();
+    match k {
+        0 => (c, vec![]),
+        1 => {
+            c.push(CowBytes::Temporary(b"\x80\x81"));
+            c.push(CowBytes::Static(Bytes::copy_from_slice(b"\x82\x83\x84")));
+            (c, b"\x80\x81\x82\x83\x84".to_vec())
+        }
+        2 => {
+            c.push(CowBytes::from_static(b"\x90"));
+            c.push(CowBytes::Temporary(b"\x91"));
+            c.push(CowBytes::Static(Bytes::copy_from_slice(b"\xaa\x92\x93\xbb").slice(1..3)));
+            (c, b"\x90\x91\x92\x93".to_vec())
+        }
+        3 => {
+            // reached through the chain's own in-range operations
+            c.push(CowBytes::Static(Bytes::copy_from_slice(b"\xa0\xa1\xa2\xa3")));
+            c.push(CowBytes::Temporary(b"\xa4\xa5"));
+            c.advance(1);
+            c.truncate(4);
+            (c, b"\xa1\xa2\xa3\xa4".to_vec())
+        }
+        _ => panic!("no such start state"),
+    }
+}
+const N_STARTS: usize = 4;
+
+/// The alphabet at a state with `n` chunks and `len` bytes.
+fn ops_at(n: usize, len: usize, out: &mut Vec<Op>) {
+    out.clear();
+    for size in 0..=MAX_SEG as u8 {
+        for st in [false, true] {
+            out.push(Op::Push { size, st });
+        }
+    }
+    for idx in 0..=(n + 1) as u8 {
+        for size in 0..=MAX_SEG as u8 {
+            for st in [false, true] {
+                out.push(Op::Insert { idx, size, st });
+            }
+        }
+    }
+    out.push(Op::Pop);
+    for idx in 0..=(n + 1) as u8 {
+        out.push(Op::Remove(idx));
+    }
+    for k in 0..=(len + 1) as u8 {
+        out.push(Op::SplitTo(k));
+        out.push(Op::SplitOff(k));
+        out.push(Op::Truncate(k));
+        out.push(Op::Advance(k));
+    }
+    out.push(Op::Clear);
+}
+
+// ---------------------------------------------------------------- oracle
+
+/// First disagreement between a chain and the bytes it should hold.
+fn observe(c: &Chain, want: &[u8]) -> Option<(&'static str, String)> {
+    if c.len() != want.len() {
+        return Some(("len", format!("len() = {} but the contents are {} bytes ({})", c.len(), want.len(), hex(want))));
+    }
+    if c.remaining() != want.len() {
+        return Some(("remaining", format!("remaining() = {} but {} bytes remain", c.remaining(), want.len())));
+    }
+    if c.is_empty() != want.is_empty() {
+        return Some(("is_empty", format!("is_empty() = {} with {} bytes", c.is_empty(), want.len())));
+    }
+    let chunks: &[CowBytes<'static>] = c.as_ref();
+    let cat: Vec<u8> = chunks.iter().flat_map(|x| x.as_ref().iter().copied()).collect();
+    if cat != want {
+        return Some(("content", format!("chunks concatenate to {} instead of {}", hex(&cat), hex(want))));
+    }
+    if let Some(i) = chunks.iter().position(|x| x.as_ref().is_empty()) {
+        return Some(("empty-chunk", format!("chunk {i} of {} is empty (chunk lengths {:?}, {} bytes remain)", chunks.len(), chunks.iter().map(|x| x.len()).collect::<Vec<_>>(), want.len())));
+    }
+    if c.chunk().is_empty() != want.is_empty() {
+        return Some(("buf-contract", format!("chunk() has {} bytes while remaining() = {}", c.chunk().len(), c.remaining())));
+    }
+    if !want.starts_with(c.chunk()) {
+        return Some(("buf-contract", format!("chunk() = {} is not a prefix of the remaining bytes {}", hex(c.chunk()), hex(want))));
+    }
+    // drain a clone chunk by chunk
+    let mut d = c.clone();
+    let mut got = Vec::with_capacity(want.len());
+    for _ in 0..=want.len() + 4 {
+        let ch = d.chunk();
+        if ch.is_empty() {
+            break;
+        }
+        let n = ch.len();
+        got.extend_from_slice(ch);
+        d.advance(n);
+    }
+    if got != want || d.remaining() != 0 || d.has_remaining() {
+        return Some(("drain", format!("draining through Buf::chunk/advance yields {} (then remaining() = {}) instead of {}", hex(&got), d.remaining(), hex(want))));
+    }
+    // and byte by byte
+    let mut d = c.clone();
+    let mut got = Vec::with_capacity(want.len());
+    for _ in 0..want.len() {
+        let ch = d.chunk();
+        if ch.is_empty() {
+            break;
+        }
+        got.push(ch[0]);
+        d.advance(1);
+    }
+    if got != want || d.remaining() != 0 || !d.chunk().is_empty() {
+        return Some(("drain", format!("draining one byte at a time yields {} (then remaining() = {}) instead of {}", hex(&got), d.remaining(), hex(want))));
+    }
+    None
+}
+
+/// What the subject returned from an operation.
+enum Ret {
+    Nothing,
+    Seg(Option<CowBytes<'static>>),
+    Half(Chain),
+}
+
+fn apply(c: &mut Chain, op: Op, step: usize) -> Ret {
+    match op {
+        Op::Push { size, st } => {
+            c.push(seg(step, size, st));
+            Ret::Nothing
+        }
+        Op::Insert { idx, size, st } => {
+            c.insert(usize::from(idx), seg(step, size, st));
+            Ret::Nothing
+        }
+        Op::Pop => Ret::Seg(c.pop()),
+        Op::Remove(i) => Ret::Seg(Some(c.remove(usize::from(i)))),
+        Op::SplitTo(n) => Ret::Half(c.split_to(usize::from(n))),
+        Op::SplitOff(n) => Ret::Half(c.split_off(usize::from(n))),
+        Op::Truncate(n) => {
+            c.truncate(usize::from(n));
+            Ret::Nothing
+        }
+        Op::Advance(n) => {
+            c.advance(usize::from(n));
+            Ret::Nothing
+        }
+        Op::Clear => {
+            c.clear();
+            Ret::Nothing
+        }
+    }
+}
+
+/// The `Vec<u8>` model. `lens` are the chunk lengths of the chain before the
+/// operation (chunk-indexed operations are defined in terms of them).
+/// Returns `None` for an out-of-range argument, else (new bytes, returned bytes).
+enum Expect {
+    OutOfRange(&'static str),
+    Ok { after: Vec<u8>, ret: Option<Option<Vec<u8>>> },
+}
+
+fn model(bytes: &[u8], lens: &[usize], op: Op, step: usize) -> Expect {
+    let len = bytes.len();
+    let n = lens.len();
+    let off = |i: usize| lens[..i].iter().sum::<usize>();
+    match op {
+        Op::Push { size: 0, .. } => Expect::OutOfRange("empty-seg"),
+        Op::Insert { idx, size, .. } if usize::from(idx) > n => Expect::OutOfRange(if size == 0 { "past-end+empty-seg" } else { "past-end" }),
+        Op::Insert { size: 0, .. } => Expect::OutOfRange("empty-seg"),
+        Op::Push { size, .. } => {
+            let mut v = bytes.to_vec();
+            v.extend_from_slice(seg_bytes(step, size));
+            Expect::Ok { after: v, ret: None }
+        }
+        Op::Insert { idx, size, .. } => {
+            let at = off(usize::from(idx));
+            let mut v = bytes.to_vec();
+            v.splice(at..at, seg_bytes(step, size).iter().copied());
+            Expect::Ok { after: v, ret: None }
+        }
+        Op::Pop => {
+            if n == 0 {
+                Expect::Ok { after: bytes.to_vec(), ret: Some(None) }
+            } else {
+                let k = lens[n - 1];
+                Expect::Ok { after: bytes[..len - k].to_vec(), ret: Some(Some(bytes[len - k..].to_vec())) }
+            }
+        }
+        Op::Remove(i) if usize::from(i) >= n => Expect::OutOfRange("past-end"),
+        Op::Remove(i) => {
+            let i = usize::from(i);
+            let (a, k) = (off(i), lens[i]);
+            let mut v = bytes.to_vec();
+            let r: Vec<u8> = v.drain(a..a + k).collect();
+            Expect::Ok { after: v, ret: Some(Some(r)) }
+        }
+        Op::SplitTo(k) | Op::SplitOff(k) | Op::Truncate(k) | Op::Advance(k) if usize::from(k) > len => Expect::OutOfRange("past-end"),
+        Op::SplitTo(k) => Expect::Ok { after: bytes[usize::from(k)..].to_vec(), ret: Some(Some(bytes[..usize::from(k)].to_vec())) },
+        Op::SplitOff(k) => Expect::Ok { after: bytes[..usize::from(k)].to_vec(), ret: Some(Some(bytes[usize::from(k)..].to_vec())) },
+        Op::Truncate(k) => Expect::Ok { after: bytes[..usize::from(k)].to_vec(), ret: None },
+        Op::Advance(k) => Expect::Ok { after: bytes[usize::from(k)..].to_vec(), ret: None },
+        Op::Clear => Expect::Ok { after: vec![], ret: None },
+    }
+}
+
+enum Step {
+    /// the sequence may go on from (chain, bytes)
+    Go(Chain, Vec<u8>),
+    /// allowed panic on an out-of-range argument: the value is discarded
+    AllowedPanic,
+    /// violation (key suffix, description): the subtree is not explored
+    Bad(String, String),
+}
+
+fn panic_text(e: &(dyn std::any::Any + Send)) -> String {
+    crate::sim::take_last_panic().unwrap_or_else(|| {
+        e.downcast_ref::<String>().cloned().or_else(|| e.downcast_ref::<&str>().map(|s| (*s).to_string())).unwrap_or_else(|| "<panic>".into())
+    })
+}
+
+#[derive(Default)]
+struct Acc {
+    nodes: u64,
+    cls: BTreeMap<String, u64>,
+    viol: HashMap<String, (String, Value, usize, u64)>,
+}
+
+impl Acc {
+    fn c(&mut self, k: &str) {
+        match self.cls.get_mut(k) {
+            Some(n) => *n += 1,
+            None => {
+                self.cls.insert(k.to_string(), 1);
+            }
+        }
+    }
+    fn v(&mut self, key: String, desc: String, size: usize, replay: impl FnOnce() -> Value) {
+        match self.viol.get_mut(&key) {
+            Some(e) => {
+                e.3 += 1;
+                if size <= e.2 {
+                    let r = replay();
+                    if size < e.2 || r.to_string() < e.1.to_string() {
+                        *e = (desc, r, size, e.3);
+                    }
+                }
+            }
+            None => {
+                self.viol.insert(key, (desc, replay(), size, 1));
+            }
+        }
+    }
+    fn merge(&mut self, o: Acc) {
+        self.nodes += o.nodes;
+        for (k, n) in o.cls {
+            *self.cls.entry(k).or_default() += n;
+        }
+        for (k, (d, r, s, n)) in o.viol {
+            match self.viol.get_mut(&k) {
+                Some(e) => {
+                    let total = e.3 + n;
+                    if s < e.2 || (s == e.2 && r.to_string() < e.1.to_string()) {
+                        *e = (d, r, s, total);
+                    } else {
+                        e.3 = total;
+                    }
+                }
+                None => {
+                    self.viol.insert(k, (d, r, s, n));
+                }
+            }
+        }
+    }
+}
+
+/// Apply `op` (the `step`-th of the sequence) to a copy of `chain` and judge it.
+fn step(chain: &Chain, bytes: &[u8], op: Op, step: usize, acc: &mut Acc) -> Step {
+    acc.nodes += 1;
+    let lens: Vec<usize> = AsRef::<[CowBytes<'static>]>::as_ref(chain).iter().map(|x| x.len()).collect();
+    let expect = model(bytes, &lens, op, step);
+    let mut c = chain.clone();
+    let applied = catch_unwind(AssertUnwindSafe(|| apply(&mut c, op, step)));
+    let name = op.name();
+    match (&expect, applied) {
+        (Expect::OutOfRange(cls), Err(_)) => {
+            let _ = crate::sim::take_last_panic();
+            acc.c(&format!("{name}.{cls}.panics"));
+            Step::AllowedPanic
+        }
+        (Expect::Ok { .. }, Err(e)) => {
+            acc.c(&format!("{name}.in-range.PANICS"));
+            Step::Bad(format!("panic.{name}.in-range"), format!("{name} with an in-range argument panicked: {}", panic_text(&*e)))
+        }
+        (Expect::OutOfRange(cls), Ok(ret)) => {
+            // tolerated only if the value is unchanged and whatever came back is coherent
+            let judged = catch_unwind(AssertUnwindSafe(|| {
+                if let Some((kind, d)) = observe(&c, bytes) {
+                    return Some((kind, d));
+                }
+                match &ret {
+                    Ret::Half(h) => {
+                        let cat: Vec<u8> = AsRef::<[CowBytes<'static>]>::as_ref(h).iter().flat_map(|x| x.as_ref().iter().copied()).collect();
+                        observe(h, &cat).map(|(k, d)| (k, format!("returned half: {d}")))
+                    }
+                    _ => None,
+                }
+            }));
+            match judged {
+                Err(e) => {
+                    acc.c(&format!("{name}.{cls}.CORRUPTS"));
+                    Step::Bad(format!("invariant-panic.{name}.{cls}"), format!("after {name} with an out-of-range argument ({cls}) that did not panic, an accessor panics: {}", panic_text(&*e)))
+                }
+                Ok(Some((kind, d))) => {
+                    acc.c(&format!("{name}.{cls}.CORRUPTS"));
+                    Step::Bad(format!("{kind}.{name}.{cls}"), format!("{name} with an out-of-range argument ({cls}) neither panicked nor left the value unchanged: {d}"))
+                }
+                Ok(None) => {
+                    acc.c(&format!("{name}.{cls}.unchanged"));
+                    Step::Go(c, bytes.to_vec())
+                }
+            }
+        }
+        (Expect::Ok { after, ret: want_ret }, Ok(ret)) => {
+            let judged = catch_unwind(AssertUnwindSafe(|| {
+                if let Some((kind, d)) = observe(&c, after) {
+                    return Some((kind.to_string(), d));
+                }
+                match (&ret, want_ret) {
+                    (Ret::Nothing, None) => None,
+                    (Ret::Seg(None), Some(None)) => None,
+                    (Ret::Seg(Some(s)), Some(Some(w))) => (s.as_ref() != w.as_slice() || s.len() != w.len()).then(|| ("ret".to_string(), format!("returned segment {} instead of {}", hex(s.as_ref()), hex(w)))),
+                    (Ret::Seg(got), Some(w)) => Some(("ret".to_string(), format!("returned {:?} where {:?} was due", got.as_ref().map(|s| hex(s.as_ref())), w.as_ref().map(|w| hex(w))))),
+                    (Ret::Half(h), Some(Some(w))) => observe(h, w).map(|(k, d)| (format!("ret-{k}"), format!("returned half: {d}"))),
+                    _ => Some(("ret".to_string(), "return value of unexpected shape".to_string())),
+                }
+            }));
+            match judged {
+                Err(e) => {
+                    acc.c(&format!("{name}.in-range.WRONG"));
+                    Step::Bad(format!("invariant-panic.{name}.in-range"), format!("after an in-range {name} an accessor panics: {}", panic_text(&*e)))
+                }
+                Ok(Some((kind, d))) => {
+                    acc.c(&format!("{name}.in-range.WRONG"));
+                    Step::Bad(format!("{kind}.{name}.in-range"), format!("after an in-range {name}: {d}"))
+                }
+                Ok(None) => {
+                    acc.c(&format!("{name}.in-range.ok"));
+                    Step::Go(c, after.clone())
+                }
+            }
+        }
+    }
+}
+
+fn seq_json(start: usize, ops: &[Op]) -> Value {
+    json!({"kind": "chain", "start": start, "ops": ops.iter().map(|o| o.to_json()).collect::<Vec<_>>()})
+}
+
+fn describe_seq(start: usize, ops: &[Op]) -> String {
+    let s: Vec<String> = ops
+        .iter()
+        .enumerate()
+        .map(|(k, o)| match o {
+            Op::Push { size, st } => format!("push({}{})", if *st { "S" } else { "T" }, hex(seg_bytes(k, *size))),
+            Op::Insert { idx, size, st } => format!("insert({idx}, {}{})", if *st { "S" } else { "T" }, hex(seg_bytes(k, *size))),
+            Op::Pop => "pop()".into(),
+            Op::Remove(i) => format!("remove({i})"),
+            Op::SplitTo(n) => format!("split_to({n})"),
+            Op::SplitOff(n) => format!("split_off({n})"),
+            Op::Truncate(n) => format!("truncate({n})"),
+            Op::Advance(n) => format!("advance({n})"),
+            Op::Clear => "clear()".into(),
+        })
+        .collect();
+    format!("start#{start}: {}", s.join("; "))
+}
+
+/// Depth-first over all sequences extending `prefix` up to `depth` operations.
+fn dfs(start: usize, chain: &Chain, bytes: &[u8], prefix: &mut Vec<Op>, depth: usize, acc: &mut Acc) {
+    if prefix.len() >= depth {
+        return;
+    }
+    let n = AsRef::<[CowBytes<'static>]>::as_ref(chain).len();
+    let mut ops = Vec::new();
+    ops_at(n, bytes.len(), &mut ops);
+    for op in ops {
+        let k = prefix.len();
+        prefix.push(op);
+        match step(chain, bytes, op, k, acc) {
+            Step::Go(c2, b2) => dfs(start, &c2, &b2, prefix, depth, acc),
+            Step::AllowedPanic => {}
+            Step::Bad(key, d) => {
+                let desc = format!("{} — {d} [model before the last operation: {}]", describe_seq(start, prefix), hex(bytes));
+                let p: &[Op] = prefix;
+                // prefer short examples, and among them ones where bytes remain
+                        acc.v(format!("chain.{key}"), desc, 2 * p.len() + usize::from(bytes.is_empty()), || seq_json(start, p));
+            }
+        }
+        prefix.pop();
+    }
+}
+
+/// Replay one recorded sequence; returns the observation text and violations.
+fn replay_chain(v: &Value) -> (String, Acc) {
+    let start = v["start"].as_u64().expect("replay: start") as usize;
+    let ops: Vec<Op> = v["ops"].as_array().expect("replay: ops").iter().map(Op::from_json).collect();
+    let mut acc = Acc::default();
+    let (mut chain, mut bytes) = start_state(start);
+    let mut log = String::new();
+    for (k, &op) in ops.iter().enumerate() {
+        match step(&chain, &bytes, op, k, &mut acc) {
+            Step::Go(c, b) => {
+                log.push_str(&format!("{}: ok -> {}; ", op.name(), hex(&b)));
+                chain = c;
+                bytes = b;
+            }
+            Step::AllowedPanic => {
+                log.push_str(&format!("{}: panicked (allowed); ", op.name()));
+                break;
+            }
+            Step::Bad(key, d) => {
+                log.push_str(&format!("{}: VIOLATION {key}: {d}", op.name()));
+                let desc = format!("{} — {d}", describe_seq(start, &ops[..=k]));
+                acc.v(format!("chain.{key}"), desc, k + 1, || seq_json(start, &ops[..=k]));
+                break;
+            }
+        }
+    }
+    (log, acc)
+}
+
+// ---------------------------------------------------------------- CowBytes
+
+const COW_ALPHABET: [u8; 3] = [0x00, 0x61, 0xff];
+
+fn cow_strings(max: usize) -> Vec<Vec<u8>> {
+    let mut v = vec![vec![]];
+    let mut layer = vec![vec![]];
+    for _ in 0..max {
+        let mut next = Vec::new();
+        for s in &layer {
+            for a in COW_ALPHABET {
+                let mut t: Vec<u8> = s.clone();
+                t.push(a);
+                next.push(t);
+            }
+        }
+        v.extend(next.iter().cloned());
+        layer = next;
+    }
+    v
+}
+
+const VARIANTS: [&str; 5] = ["temporary", "static-heap", "static-slice", "static-literal", "from-slice"];
+
+/// Build variant `which` of the byte string `s` (`lit` is a leaked copy of `s`).
+fn cow_of<'a>(s: &'a [u8], lit: &'static [u8], which: usize) -> CowBytes<'a> {
+    match which {
+        0 => CowBytes::Temporary(s),
+        1 => CowBytes::Static(Bytes::copy_from_slice(s)),
+        2 => {
+            let mut padded = vec![0x55u8];
+            padded.extend_from_slice(s);
+            padded.push(0x66);
+            CowBytes::Static(Bytes::from(padded).slice(1..=s.len()))
+        }
+        3 => CowBytes::from_static(lit),
+        _ => CowBytes::from(s),
+    }
+}
+
+fn std_hash<T: Hash + ?Sized>(t: &T) -> u64 {
+    let mut h = std::collections::hash_map::DefaultHasher::new();
+    t.hash(&mut h);
+    h.finish()
+}
+
+/// Hasher that records everything written to it.
+#[derive(Default)]
+struct Tape(Vec<u8>);
+impl Hasher for Tape {
+    fn finish(&self) -> u64 {
+        0
+    }
+    fn write(&mut self, b: &[u8]) {
+        self.0.extend_from_slice(b);
+    }
+}
+fn tape<T: Hash + ?Sized>(t: &T) -> Vec<u8> {
+    let mut h = Tape::default();
+    t.hash(&mut h);
+    h.0
+}
+
+fn eq_array(c: &CowBytes<'_>, s: &[u8]) -> Option<bool> {
+    // PartialEq<&[u8; N]>
+    Some(match s.len() {
+        0 => *c == <&[u8; 0]>::try_from(s).ok()?,
+        1 => *c == <&[u8; 1]>::try_from(s).ok()?,
+        2 => *c == <&[u8; 2]>::try_from(s).ok()?,
+        3 => *c == <&[u8; 3]>::try_from(s).ok()?,
+        4 => *c == <&[u8; 4]>::try_from(s).ok()?,
+        5 => *c == <&[u8; 5]>::try_from(s).ok()?,
+        _ => return None,
+    })
+}
+
+/// Every accessor of one value against the byte string it was built from.
+/// Returns the names of the accessors that disagree.
+fn cow_accessors(c: &CowBytes<'_>, s: &[u8]) -> Vec<(&'static str, String)> {
+    let mut bad: Vec<(&'static str, String)> = Vec::new();
+    let mut chk = |name: &'static str, ok: bool, detail: String| {
+        if !ok {
+            bad.push((name, detail));
+        }
+    };
+    chk("len", c.len() == s.len(), format!("len() = {}", c.len()));
+    chk("is_empty", c.is_empty() == s.is_empty(), format!("is_empty() = {}", c.is_empty()));
+    chk("as_ref", c.as_ref() == s, format!("as_ref() = {}", hex(c.as_ref())));
+    chk("deref", &**c == s && c.first() == s.first() && c.iter().count() == s.len(), format!("deref = {}", hex(&**c)));
+    chk("chunk", c.chunk() == s, format!("chunk() = {}", hex(c.chunk())));
+    chk("remaining", c.remaining() == s.len(), format!("remaining() = {}", c.remaining()));
+    let b: &[u8] = c.borrow();
+    chk("borrow", b == s, format!("borrow() = {}", hex(b)));
+    chk("hash", std_hash(c) == std_hash(s) && tape(c) == tape(s), format!("hash feeds {} where [u8] feeds {}", hex(&tape(c)), hex(&tape(s))));
+    chk("lower-hex", format!("{c:x}") == hex(s), format!("{{:x}} = {c:x}"));
+    chk("upper-hex", format!("{c:X}") == hex(s).to_uppercase(), format!("{{:X}} = {c:X}"));
+    chk("eq-slice", *c == *s && !(*c != *s), "== [u8] is false".into());
+    chk("eq-vec", *c == s.to_vec(), "== Vec<u8> is false".into());
+    chk("eq-bytes", *c == Bytes::copy_from_slice(s), "== Bytes is false".into());
+    if let Some(e) = eq_array(c, s) {
+        chk("eq-array", e, "== &[u8; N] is false".into());
+    }
+    chk("cmp-slice", c.partial_cmp(s) == Some(Ordering::Equal), format!("partial_cmp([u8]) = {:?}", c.partial_cmp(s)));
+    chk("cmp-bytes", c.partial_cmp(&Bytes::copy_from_slice(s)) == Some(Ordering::Equal), "partial_cmp(Bytes) != Equal".into());
+    chk("clone", c.clone().as_ref() == s && c.clone() == *c, "clone differs".into());
+    chk("into_static", c.clone().into_static().as_ref() == s, format!("into_static() = {}", hex(c.clone().into_static().as_ref())));
+    // Buf: draining a clone yields the bytes
+    let mut d = c.clone();
+    let mut got = Vec::new();
+    while d.has_remaining() && got.len() <= s.len() {
+        got.push(d.chunk()[0]);
+        d.advance(1);
+    }
+    chk("buf-drain", got == s && d.remaining() == 0 && d.chunk().is_empty(), format!("Buf drain = {}", hex(&got)));
+    // io::Read: one call copies min(buf, len) bytes from the front
+    for cap in [0usize, 1, s.len(), s.len() + 1] {
+        let mut d = c.clone();
+        let mut buf = vec![0xeeu8; cap];
+        let r = std::io::Read::read(&mut d, &mut buf);
+        let n = cap.min(s.len());
+        chk("read", matches!(r, Ok(k) if k == n) && buf[..n] == s[..n], format!("read(buf[{cap}]) = {r:?} / {}", hex(&buf)));
+    }
+    bad
+}
+
+/// Does `io::Read::read` consume what it returned (as `&[u8]` does)?
+fn cow_read_consumes(c: &CowBytes<'_>) -> bool {
+    let mut d = c.clone();
+    let mut buf = [0u8; 1];
+    let _ = std::io::Read::read(&mut d, &mut buf);
+    d.len() + 1 == c.len()
+}
+
+/// Mutators at index `k` against the `Vec` model. Returns (key part, detail) on a violation;
+/// `panicked` reports whether the call panicked (for the divergence statistics).
+fn cow_mutator(c: &CowBytes<'_>, s: &[u8], which: &'static str, k: usize) -> (bool, Option<(String, String)>) {
+    let mut d = c.clone();
+    let r = catch_unwind(AssertUnwindSafe(|| match which {
+        "split_to" => Some(d.split_to(k)),
+        "split_off" => Some(d.split_off(k)),
+        "truncate" => {
+            d.truncate(k);
+            None
+        }
+        _ => {
+            d.advance(k);
+            None
+        }
+    }));
+    let in_range = k <= s.len();
+    let cls = if in_range { "in-range" } else { "past-end" };
+    match r {
+        Err(e) => {
+            let m = panic_text(&*e);
+            if in_range { (true, Some((format!("panic.{which}.{cls}"), format!("{which}({k}) on {} panicked: {m}", hex(s))))) } else { (true, None) }
+        }
+        Ok(ret) => {
+            let (want_self, want_ret): (&[u8], Option<&[u8]>) = if in_range {
+                match which {
+                    "split_to" => (&s[k..], Some(&s[..k])),
+                    "split_off" => (&s[..k], Some(&s[k..])),
+                    "truncate" => (&s[..k], None),
+                    _ => (&s[k..], None),
+                }
+            } else {
+                (s, None)
+            };
+            let self_ok = d.as_ref() == want_self && d.len() == want_self.len() && d.remaining() == want_self.len() && d.chunk() == want_self;
+            let ret_ok = match (&ret, want_ret) {
+                (Some(r), Some(w)) => r.as_ref() == w && r.len() == w.len(),
+                (Some(r), None) => r.len() == r.as_ref().len(), // out of range, tolerated: only coherence
+                (None, _) => true,
+            };
+            if self_ok && ret_ok {
+                (false, None)
+            } else {
+                (
+                    false,
+                    Some((
+                        format!("mut.{which}.{cls}"),
+                        format!(
+                            "{which}({k}) on {} leaves {} (len() = {}) and returns {:?}; the byte-vector model gives {} / {:?}",
+                            hex(s),
+                            hex(d.as_ref()),
+                            d.len(),
+                            ret.as_ref().map(|r| hex(r.as_ref())),
+                            hex(want_self),
+                            want_ret.map(hex)
+                        ),
+                    )),
+                )
+            }
+        }
+    }
+}
+
+fn check_cow_string(s: &[u8], acc: &mut Acc) {
+    let lit: &'static [u8] = Box::leak(s.to_vec().into_boxed_slice());
+    for (vi, vname) in VARIANTS.iter().enumerate() {
+        let rj = || json!({"kind": "cow", "hex": hex(s), "variant": vi});
+        acc.nodes += 1;
+        let built = catch_unwind(AssertUnwindSafe(|| {
+            let c = cow_of(s, lit, vi);
+            cow_accessors(&c, s)
+        }));
+        match built {
+            Err(e) => acc.v(format!("cow.panic.accessors.{vname}"), format!("an accessor of the {vname} CowBytes of {} panicked: {}", hex(s), panic_text(&*e)), s.len(), rj),
+            Ok(bad) => {
+                acc.c(if bad.is_empty() { "cow.accessors.ok" } else { "cow.accessors.WRONG" });
+                for (name, detail) in bad {
+                    acc.v(format!("cow.{name}.{vname}"), format!("{vname} CowBytes of {}: {detail}", hex(s)), s.len(), rj);
+                }
+            }
+        }
+        let c = cow_of(s, lit, vi);
+        if !s.is_empty() {
+            acc.c(if cow_read_consumes(&c) { "cow.read.consumes" } else { "cow.read.does-not-consume" });
+        }
+        for which in ["split_to", "split_off", "truncate", "advance"] {
+            for k in 0..=s.len() + 1 {
+                acc.nodes += 1;
+                let (panicked, bad) = cow_mutator(&c, s, which, k);
+                let cls = if k <= s.len() { "in-range" } else { "past-end" };
+                acc.c(&format!("cow.{which}.{cls}.{}", if panicked { "panics" } else { "returns" }));
+                if let Some((key, d)) = bad {
+                    acc.v(format!("cow.{key}.{vname}"), format!("{vname}: {d}"), s.len(), || json!({"kind": "cow", "hex": hex(s), "variant": vi}));
+                }
+            }
+        }
+    }
+}
+
+fn check_cow_pair(a: &[u8], b: &[u8], acc: &mut Acc) {
+    let want_eq = a == b;
+    let want_cmp = a.cmp(b);
+    let la: &'static [u8] = &[];
+    for va in 0..3 {
+        for vb in 0..3 {
+            acc.nodes += 1;
+            let (x, y) = (cow_of(a, la, va), cow_of(b, la, vb));
+            let r = catch_unwind(AssertUnwindSafe(|| {
+                let mut bad: Vec<&'static str> = Vec::new();
+                if (x == y) != want_eq || (x != y) == want_eq {
+                    bad.push("eq");
+                }
+                if x.partial_cmp(&y) != Some(want_cmp) || (x < y) != (want_cmp == Ordering::Less) || (x >= y) != (want_cmp != Ordering::Less) {
+                    bad.push("cmp");
+                }
+                if (x == *b) != want_eq || (x == b.to_vec()) != want_eq || (x == Bytes::copy_from_slice(b)) != want_eq {
+                    bad.push("eq-foreign");
+                }
+                if x.partial_cmp(b) != Some(want_cmp) || x.partial_cmp(&Bytes::copy_from_slice(b)) != Some(want_cmp) {
+                    bad.push("cmp-foreign");
+                }
+                if want_eq && std_hash(&x) != std_hash(&y) {
+                    bad.push("hash");
+                }
+                bad
+            }));
+            let rj = || json!({"kind": "cow-pair", "a": hex(a), "b": hex(b), "va": va, "vb": vb});
+            match r {
+                Err(e) => acc.v("cow.panic.compare".into(), format!("comparing {} with {} panicked: {}", hex(a), hex(b), panic_text(&*e)), a.len() + b.len(), rj),
+                Ok(bad) => {
+                    acc.c(if want_eq { "cow.pair.equal" } else { "cow.pair.unequal" });
+                    for name in bad {
+                        acc.v(
+                            format!("cow.pair-{name}.{}-{}", VARIANTS[va], VARIANTS[vb]),
+                            format!("{name} of {} CowBytes {} against {} {} disagrees with the byte strings (equal: {want_eq}, order: {want_cmp:?})", VARIANTS[va], hex(a), VARIANTS[vb], hex(b)),
+                            a.len() + b.len(),
+                            rj,
+                        );
+                    }
+                }
+            }
+        }
+    }
+}
+
+// ---------------------------------------------------------------- driver
 
 pub fn run(args: &Args) -> Report {
+    crate::sim::install_quiet_panic_hook();
     let mut rep = Report::new("C20", &args.tier, "enum", "exploration");
-    rep.machinery_error = Some("not built yet".into());
+    let thorough = args.thorough();
+    let threads = args.threads.max(1);
+    rep.extra.insert("build_profile".into(), json!(if cfg!(debug_assertions) { "checked" } else { "release" }));
+
+    if let Some(v) = args.replay_json() {
+        let run_once = || -> (String, Acc) {
+            match v["kind"].as_str() {
+                Some("chain") => replay_chain(&v),
+                Some("cow") => {
+                    let mut acc = Acc::default();
+                    check_cow_string(&unhex(v["hex"].as_str().expect("hex")), &mut acc);
+                    (format!("{:?}", acc.cls), acc)
+                }
+                Some("cow-pair") => {
+                    let mut acc = Acc::default();
+                    check_cow_pair(&unhex(v["a"].as_str().expect("a")), &unhex(v["b"].as_str().expect("b")), &mut acc);
+                    (format!("{:?}", acc.cls), acc)
+                }
+                other => panic!("replay: unknown kind {other:?}"),
+            }
+        };
+        let (o1, a1) = run_once();
+        let (o2, _) = run_once();
+        rep.evaluations = 2;
+        rep.distinct_nontrivial = 1;
+        rep.rule = "replay of one recorded case, run twice".into();
+        rep.extra.insert("replayed".into(), v.clone());
+        rep.extra.insert("observation".into(), json!(o1));
+        if o1 != o2 {
+            rep.machinery_error = Some(format!("replay is not deterministic: {o1} vs {o2}"));
+        }
+        let mut keys: Vec<_> = a1.viol.into_iter().collect();
+        keys.sort_by(|a, b| a.0.cmp(&b.0));
+        for (k, (d, r, _, n)) in keys {
+            rep.violation_n(k, d, r, n);
+        }
+        return rep;
+    }
+
+    // ---- LongChain: all operation sequences
+    let depth_empty = if thorough { 5 } else { 4 };
+    let depth_built = if thorough { 4 } else { 3 };
+    // the coordinator explores the first SPLIT levels and hands every surviving
+    // state to the workers
+    const SPLIT: usize = 2;
+    struct Item {
+        start: usize,
+        prefix: Vec<Op>,
+        chain: Chain,
+        bytes: Vec<u8>,
+        depth: usize,
+    }
+    let mut total = Acc::default();
+    let mut items: Vec<Item> = Vec::new();
+    for start in 0..N_STARTS {
+        let depth = if start == 0 { depth_empty } else { depth_built };
+        let (chain, bytes) = start_state(start);
+        // the start state itself must be sound
+        if let Some((kind, d)) = observe(&chain, &bytes) {
+            rep.machinery_error = Some(format!("start state {start} is already inconsistent ({kind}: {d})"));
+            return rep;
+        }
+        fn expand(start: usize, chain: &Chain, bytes: &[u8], prefix: &mut Vec<Op>, depth: usize, split: usize, items: &mut Vec<Item>, acc: &mut Acc) {
+            if prefix.len() >= depth {
+                return;
+            }
+            if prefix.len() == split {
+                items.push(Item { start, prefix: prefix.clone(), chain: chain.clone(), bytes: bytes.to_vec(), depth });
+                return;
+            }
+            let n = AsRef::<[CowBytes<'static>]>::as_ref(chain).len();
+            let mut ops = Vec::new();
+            ops_at(n, bytes.len(), &mut ops);
+            for op in ops {
+                let k = prefix.len();
+                prefix.push(op);
+                match step(chain, bytes, op, k, acc) {
+                    Step::Go(c2, b2) => expand(start, &c2, &b2, prefix, depth, split, items, acc),
+                    Step::AllowedPanic => {}
+                    Step::Bad(key, d) => {
+                        let desc = format!("{} — {d} [model before the last operation: {}]", describe_seq(start, prefix), hex(bytes));
+                        let p: &[Op] = prefix;
+                        // prefer short examples, and among them ones where bytes remain
+                        acc.v(format!("chain.{key}"), desc, 2 * p.len() + usize::from(bytes.is_empty()), || seq_json(start, p));
+                    }
+                }
+                prefix.pop();
+            }
+        }
+        expand(start, &chain, &bytes, &mut Vec::new(), depth, SPLIT, &mut items, &mut total);
+    }
+    let next = AtomicUsize::new(0);
+    let merged = Mutex::new(Acc::default());
+    std::thread::scope(|s| {
+        for _ in 0..threads {
+            let (items, next, merged) = (&items, &next, &merged);
+            s.spawn(move || {
+                let mut acc = Acc::default();
+                loop {
+                    let i = next.fetch_add(1, AO::Relaxed);
+                    let Some(it) = items.get(i) else { break };
+                    let mut prefix = it.prefix.clone();
+                    dfs(it.start, &it.chain, &it.bytes, &mut prefix, it.depth, &mut acc);
+                }
+                merged.lock().unwrap().merge(acc);
+            });
+        }
+    });
+    total.merge(merged.into_inner().unwrap());
+    let chain_nodes = total.nodes;
+
+    // ---- CowBytes
+    let max_len = if thorough { 5 } else { 4 };
+    let strings = cow_strings(max_len);
+    let mut cow = Acc::default();
+    for s in &strings {
+        check_cow_string(s, &mut cow);
+    }
+    let pair_strings = cow_strings(if thorough { 4 } else { 3 });
+    let merged = Mutex::new(Acc::default());
+    let next = AtomicUsize::new(0);
+    std::thread::scope(|s| {
+        for _ in 0..threads {
+            let (ps, next, merged) = (&pair_strings, &next, &merged);
+            s.spawn(move || {
+                let mut acc = Acc::default();
+                loop {
+                    let i = next.fetch_add(1, AO::Relaxed);
+                    let Some(a) = ps.get(i) else { break };
+                    for b in ps {
+                        check_cow_pair(a, b, &mut acc);
+                    }
+                }
+                merged.lock().unwrap().merge(acc);
+            });
+        }
+    });
+    cow.merge(merged.into_inner().unwrap());
+    let cow_nodes = cow.nodes;
+    total.merge(cow);
+
+    rep.evaluations = total.nodes;
+    rep.distinct_nontrivial = total.nodes;
+    rep.exhaustive = true;
+    rep.rule = "LongChain: every sequence of operations up to the depth bound from the empty chain and three pre-built chains; at each state the alphabet is push/insert of segments of 0..=3 bytes x {Temporary, Static} at every chunk index 0..=#chunks+1, pop, remove at every index 0..=#chunks+1, split_to/split_off/truncate/advance at EVERY byte position 0..=len+1, clear; after every operation len/remaining/is_empty/chunks/chunk()/two drains of a clone and the returned segment or half are compared with a Vec<u8>; a sequence ends at an allowed panic or at its first violation. Each evaluation is one (start, operation sequence), distinct by construction. CowBytes: every byte string up to the length bound over {00,61,ff} in five constructions through every accessor and every mutator index 0..=len+1; all ordered pairs of strings x 3x3 constructions through eq/partial_cmp/hash".into();
+    rep.bounds.insert("chain_depth_from_empty".into(), json!(depth_empty));
+    rep.bounds.insert("chain_depth_from_prebuilt".into(), json!(depth_built));
+    rep.bounds.insert("chain_start_states".into(), json!(N_STARTS));
+    rep.bounds.insert("segment_sizes".into(), json!([0, 1, 2, 3]));
+    rep.bounds.insert("chain_sequences".into(), json!(chain_nodes));
+    rep.bounds.insert("work_items".into(), json!(items.len()));
+    rep.bounds.insert("cow_max_len".into(), json!(max_len));
+    rep.bounds.insert("cow_strings".into(), json!(strings.len()));
+    rep.bounds.insert("cow_pair_strings".into(), json!(pair_strings.len()));
+    rep.bounds.insert("cow_evaluations".into(), json!(cow_nodes));
+    rep.extra.insert("classes".into(), json!(total.cls));
+    let read_consumes = total.cls.get("cow.read.consumes").copied().unwrap_or(0);
+    let read_not = total.cls.get("cow.read.does-not-consume").copied().unwrap_or(0);
+    rep.extra.insert(
+        "note_io_read".into(),
+        json!(format!(
+            "io::Read::read on CowBytes consumed the returned bytes in {read_consumes} and did not in {read_not} of the (string, construction) cases; both variants behave alike, which is all the statement asks, so this is reported here and not as a violation"
+        )),
+    );
+    rep.assumptions.push("chunk-indexed operations (insert, pop, remove) are modelled on the chunk boundaries the chain itself exposes through as_ref() before the operation (their concatenation having been checked against the model)".into());
+    rep.assumptions.push("an out-of-range argument that does not panic must leave every observation unchanged; a returned half must then merely be coherent (length = contents, no empty chunk)".into());
+    rep.assumptions.push("Debug output and is_temporary()/is_static() distinguish the variants by design and are not compared".into());
+    rep.sample(seq_json(0, &[Op::Push { size: 2, st: false }, Op::Push { size: 3, st: true }, Op::SplitTo(3), Op::Truncate(3)]));
+    rep.sample(seq_json(2, &[Op::Insert { idx: 1, size: 1, st: true }, Op::Advance(2), Op::Pop]));
+    rep.sample(json!({"kind": "cow", "hex": "0061ff", "variant": 2}));
+    rep.sample(json!({"kind": "cow-pair", "a": "61", "b": "6100", "va": 0, "vb": 1}));
+    let mut keys: Vec<_> = total.viol.into_iter().collect();
+    keys.sort_by(|a, b| a.0.cmp(&b.0));
+    for (k, (d, r, _, n)) in keys {
+        rep.violation_n(k, d, r, n);
+    }
+    // vacuity guard
+    let sum = |suffix: &str| -> u64 { total.cls.iter().filter(|(k, _)| k.ends_with(suffix)).map(|(_, n)| *n).sum() };
+    let (ok, pan) = (sum(".in-range.ok"), sum(".panics"));
+    rep.extra.insert("chain_in_range_ok".into(), json!(ok));
+    rep.extra.insert("out_of_range_panics".into(), json!(pan));
+    for need in ["push.in-range.ok", "insert.in-range.ok", "pop.in-range.ok", "remove.in-range.ok", "split_to.in-range.ok", "split_off.in-range.ok", "truncate.in-range.ok", "advance.in-range.ok", "clear.in-range.ok", "cow.pair.equal", "cow.pair.unequal", "cow.accessors.ok"] {
+        if total.cls.get(need).copied().unwrap_or(0) == 0 {
+            rep.machinery_error = Some(format!("vacuous run: class {need} never occurred"));
+        }
+    }
+    if pan == 0 {
+        rep.machinery_error = Some("vacuous run: no out-of-range argument was ever refused".into());
+    }
     rep
 }
